@@ -34,10 +34,14 @@ structure Flags where
   /-- block.rs:1778-1779 (C13) — the rebroadcast input keeps the original utxo key, so the ATR tx validates even
       when the payout multiplier is above 1. Pinned: the input amount is rewritten, hence the key changes. -/
   atrKeepsKey : Bool := false
+  /-- block.rs:3128-3135 (repair F7, C01/C02 `singleFeeTx`) — `Block::validate` requires exactly one fee transaction
+      in a block with a golden ticket and none in a block without. Pinned: only the LAST fee transaction is compared
+      with the expected one (and only when a ticket exists); surplus fee transactions pass. -/
+  feeTxCount : Bool := false
   deriving Repr, DecidableEq
 
 def Flags.pinned : Flags := {}
-def Flags.fixed : Flags := ⟨true, true, true, true, true⟩
+def Flags.fixed : Flags := ⟨true, true, true, true, true, true⟩
 
 inductive TxType
   | normal | fee | goldenTicket | atr | spv | issuance | blockStake | bound | other
@@ -501,8 +505,13 @@ def prevChecks (ctx : Ctx) (b : Block) (cv : CV) (ticket : Nat) : Bool :=
      | some _ => b.unpaid == 0 && ctx.gtOk ticket
      | none => b.unpaid == p.tf)
 
-/-- the fee-transaction comparison (block.rs:3129-3167) -/
-def feeCheck (ctx : Ctx) (b : Block) (cv : CV) : Bool :=
+/-- repair F7 (block.rs:3128-3135): the number of fee transactions is fixed by the presence of a ticket —
+    none without a golden ticket, exactly one with. Pinned: no such rule. -/
+def feeCount (fl : Flags) (cv : CV) : Bool :=
+  !fl.feeTxCount || (!(cv.gtIndex.isNone && cv.ftNum > 0) && !(cv.gtIndex.isSome && cv.ftNum != 1))
+
+/-- the fee-transaction comparison (block.rs:3129-3167): the LAST fee transaction against the expected one -/
+def feeCompare (ctx : Ctx) (b : Block) (cv : CV) : Bool :=
   if cv.ftNum > 0 then
     match cv.ftIndex, cv.feeTx with
     | some i, some expected =>
@@ -510,6 +519,8 @@ def feeCheck (ctx : Ctx) (b : Block) (cv : CV) : Bool :=
       else !ctx.vau || (match b.txs[i]? with | some t => t.body == expected | none => false)
     | _, _ => true
   else true
+
+def feeCheck (fl : Flags) (ctx : Ctx) (b : Block) (cv : CV) : Bool := feeCount fl cv && feeCompare ctx b cv
 
 /-- `Block::validate` for a full block on a full node -/
 def validate (fl : Flags) (ctx : Ctx) (b : Block) : Bool :=
@@ -523,7 +534,7 @@ def validate (fl : Flags) (ctx : Ctx) (b : Block) : Bool :=
   prevChecks ctx b cv s.c.ticket &&
   (!ctx.vau || cv.rs == b.rs) &&
   (!ctx.vau || cv.rebHash == b.rebHash) &&
-  feeCheck ctx b cv &&
+  feeCheck fl ctx b cv &&
   sweepOk fl b.txs
 
 /-! ## the producer: `Mempool::add_transaction_if_validates`, `can_bundle_block`, `bundle_block` -/
